@@ -104,7 +104,8 @@ func init() {
 		},
 	}
 	propDefs["C18"] = &PropDef{
-		ID: "C18",
+		ID:   "C18",
+		Pkgs: []pkgRef{{"util/resolve", "deps.dev/util/resolve"}},
 		Extra: func(c *checkCtx, wb bool) []OblResult {
 			prog, err := c.prog("util/resolve")
 			if err != nil {
@@ -116,7 +117,7 @@ func init() {
 		},
 		Trusted: []string{"the dominance-based lock-discipline check /verif/engine/lock.go; sync.Mutex; gRPC client internals"},
 		Assume: []string{
-			"partial: only the race-freedom of the client's own state is decided (every access to bundledVersions holds bundledVersionsMu, every other APIClient field is written only in NewAPIClient); bundle/alias mapping consistency and equality of graphs with the in-memory client are not covered",
+			"partial: race-freedom of the client's own state (every access to bundledVersions holds bundledVersionsMu, every other APIClient field is written only in NewAPIClient) and the alias split of flattenNPMDeps (name = text before the last '@', version = the rest; non-aliased requirements unchanged) as site assertions; bundle mapping consistency across the four calls and equality of graphs with the in-memory client are not covered",
 		},
 	}
 	propDefs["C16"] = &PropDef{
@@ -124,6 +125,13 @@ func init() {
 		Pkgs: []pkgRef{{"util/resolve", "deps.dev/util/resolve/pypi"}},
 		Assume: []string{
 			"partial: markerExpr.Eval against the PEP 508 operator table on strings, `extra` membership, and delegation to the version constraint; requirement and marker parsing, name normalisation and the and/or combinators are not covered",
+		},
+	}
+	propDefs["C02"] = &PropDef{
+		ID:   "C02",
+		Pkgs: []pkgRef{semver},
+		Assume: []string{
+			"partial, comparator half only: individual rules of the published orderings (semver.org section 11, PEP 440 sort key, Gem::Version) are proved as lemmas over the derived summaries of the comparators on the parsed representation; that a string is parsed into the fields the reference tool would see, Maven's ComparableVersion, NuGet's case rule, PEP 440 local segments and normalised-form acceptance are not covered",
 		},
 	}
 	propDefs["C09"] = &PropDef{
